@@ -604,4 +604,137 @@ theorem castCore_spec (dst frm : DurTy) (h : CastTyOk dst frm) (c : Int) (hin : 
   rw [castCore_eq dst.rep _ _ hN hD (by have := hdiv.1; omega) (by have := hdiv.2; omega) c (repOk_sub hfrm c hc) hmul,
     cast_val _ _ hp hq, conv_of_inR _ (repOk_w hto) _ hres]
 
+/-! ## `round`: self common type -/
+
+/-- the period is in lowest terms (always true of `ratio<…>::type`) -/
+def Coprime (p : Ratio) : Prop := Int.gcd p.num p.den = 1
+instance (p : Ratio) : Decidable (Coprime p) := by unfold Coprime; infer_instance
+
+theorem cdPer_self (p : Ratio) (hp : PerOk p) (hc : Coprime p) : cdPer p p = p := by
+  obtain ⟨p1, p2, _, _⟩ := hp
+  unfold Coprime at hc
+  unfold cdPer
+  dsimp only
+  have e1 : ((Int.gcd p.num p.num : Nat) : Int) = p.num := by rw [Int.gcd_self]; omega
+  have e2 : ((Int.lcm p.den p.den : Nat) : Int) = p.den := by rw [Int.lcm_self]; omega
+  rw [e1, e2, hc]
+  simp
+
+theorem cf_self (p : Ratio) (hp : PerOk p) : cfN p p = 1 ∧ cfD p p = 1 := by
+  obtain ⟨p1, p2, _, _⟩ := hp
+  have hA : 0 < p.num * p.den := Int.mul_pos p1 p2
+  unfold cfN cfD
+  rw [Int.mul_comm p.den p.num, Int.gcd_self]
+  have : ((p.num * p.den).natAbs : Int) = p.num * p.den := by omega
+  rw [this, Int.ediv_self (by omega)]
+  exact ⟨rfl, rfl⟩
+
+theorem cdPer_coprime (p q : Ratio) (hp : PerOk p) (hq : PerOk q) : Coprime (cdPer p q) := by
+  unfold Coprime cdPer
+  dsimp only
+  have hG := gcd_pos_int p.num q.num hp.1
+  generalize ((Int.gcd p.num q.num : Nat) : Int) = G at *
+  generalize ((Int.lcm p.den q.den : Nat) : Int) = L at *
+  exact Int.gcd_div_gcd_div_gcd (Int.gcd_pos_of_ne_zero_left _ (by omega))
+
+
+/-! ## helper lemmas for the property theorems (run-time bodies on a known static context) -/
+
+/-- the run-time body of `operator<` compares the exact values -/
+theorem ltCore_spec (a b : DurTy) (h : PairTyOk a b) (x y : Int) (hin : PairIn a b x y) :
+    ltCore (pairK a b) x y = .ok (Spec.lt a.per.toRat b.per.toRat x y) := by
+  obtain ⟨c1, c2⟩ := both_common a b h x y hin
+  obtain ⟨ha, hb, hpa, hpb, hc⟩ := h
+  obtain ⟨e1, e2, hpos, _⟩ := mul_rat a.per b.per hpa hpb hc.1
+  simp only [bind, Except.bind, ltCore, c1, c2]
+  unfold Spec.lt Spec.val
+  congr 1
+  rw [decide_eq_decide, ← e1, ← e2]
+  constructor
+  · intro hlt
+    have : ((x * mulL a.per b.per : Int) : ℚ) < ((y * mulR a.per b.per : Int) : ℚ) := by exact_mod_cast hlt
+    push_cast at this
+    nlinarith [mul_lt_mul_of_pos_right this hpos]
+  · intro hlt
+    have : ((x : ℚ) * mulL a.per b.per) * (cdPer a.per b.per).toRat < ((y : ℚ) * mulR a.per b.per) * (cdPer a.per b.per).toRat := by
+      nlinarith
+    have := lt_of_mul_lt_mul_right this (le_of_lt hpos)
+    exact_mod_cast this
+
+
+theorem common_self (r : ITy) : ITy.common r r = r := by
+  unfold ITy.common; rw [(ity_beq r r).mpr rfl]; rfl
+
+theorem cdTy_self (d : DurTy) (hp : PerOk d.per) (hc : Coprime d.per) : cdTy d d = d := by
+  unfold cdTy; rw [common_self, cdPer_self _ hp hc]
+
+theorem pairK_self (d : DurTy) (hp : PerOk d.per) (hc : Coprime d.per) :
+    pairK d d = ⟨d, ⟨d.rep, imax, ⟨1, 1⟩⟩, ⟨d.rep, imax, ⟨1, 1⟩⟩⟩ := by
+  unfold pairK mulL mulR
+  rw [cdTy_self d hp hc, cdPer_self _ hp hc, (cf_self _ hp).1]
+
+theorem castK_self (d : DurTy) (hp : PerOk d.per) : castK d d = ⟨d.rep, imax, ⟨1, 1⟩⟩ := by
+  unfold castK; rw [(cf_self _ hp).1, (cf_self _ hp).2]
+
+
+theorem floorCtx_eq (dst frm : DurTy) (h : CastTyOk dst frm) (hp : PairTyOk frm dst) :
+    floorCtx dst frm = .ok ⟨dst, castK dst frm, pairK frm dst⟩ := by
+  unfold floorCtx
+  rw [castCtx_eq dst frm h.1 h.2.1 h.2.2.1 h.2.2.2.1 h.2.2.2.2, pairCtx_eq frm dst hp.1 hp.2.1 hp.2.2.1 hp.2.2.2.1 hp.2.2.2.2]
+  rfl
+
+
+theorem floorCore_spec (dst frm : DurTy) (h : CastTyOk dst frm) (hp : PairTyOk frm dst) (c : Int) (hin : CastIn dst frm c)
+    (hcmp : PairIn frm dst c (Spec.cast frm.per.toRat dst.per.toRat c))
+    (hstep : dst.rep.inR (Spec.cast frm.per.toRat dst.per.toRat c + -1) = true) :
+    floorCore ⟨dst, castK dst frm, pairK frm dst⟩ c = .ok (Spec.floor frm.per.toRat dst.per.toRat c) := by
+  have hQ := toRat_pos dst.per h.2.2.2.1
+  have hcast := castCore_spec dst frm h c hin
+  have hlt := ltCore_spec frm dst hp c _ hcmp
+  simp only [bind, Except.bind, floorCore, hcast, hlt]
+  rw [spec_lt_left _ _ hQ]
+  have key := trunc_floor_adjust (Spec.val frm.per.toRat c / dst.per.toRat)
+  unfold Spec.floor
+  rw [rat_floor_eq, ← key]
+  by_cases hx : Spec.val frm.per.toRat c / dst.per.toRat < ((Spec.cast frm.per.toRat dst.per.toRat c : Int) : ℚ)
+  · have hx' : Spec.val frm.per.toRat c / dst.per.toRat < ((Spec.trunc (Spec.val frm.per.toRat c / dst.per.toRat) : Int) : ℚ) := hx
+    rw [if_pos hx']
+    simp only [hx, decide_true, if_true]
+    rw [step1_eq dst h.1 _ _ hstep]
+    rfl
+  · have hx' : ¬ Spec.val frm.per.toRat c / dst.per.toRat < ((Spec.trunc (Spec.val frm.per.toRat c / dst.per.toRat) : Int) : ℚ) := hx
+    rw [if_neg hx']
+    simp only [hx, decide_false, Bool.false_eq_true, if_false]
+    rfl
+
+
+/-- one side of a subtraction through the common type -/
+theorem subCore_spec (a b : DurTy) (h : PairTyOk a b) (x y : Int) (hin : PairIn a b x y)
+    (hdiff : (cdTy a b).rep.inR (x * mulL a.per b.per - y * mulR a.per b.per) = true) :
+    subCore (pairK a b) x y = .ok (x * mulL a.per b.per - y * mulR a.per b.per) := by
+  obtain ⟨c1, c2⟩ := both_common a b h x y hin
+  have hcd := cd_repOk h
+  simp only [bind, Except.bind, subCore, c1, c2]
+  have : (pairK a b).cd = cdTy a b := rfl
+  rw [this, repOk_promote hcd, arith_ok _ (repOk_w hcd) _ hdiff]
+  simp only [mkCD_id _ hcd _ hdiff]
+
+
+theorem roundEven_cases (X : ℚ) (f : Int) (hf : f = ⌊X⌋) (A B : Prop) [Decidable A] [Decidable B]
+    (hA : A ↔ X - f < 1 / 2) (hB : B ↔ 1 / 2 < X - f) :
+    (if decide A = true then f else if decide B = true then f + 1 else if (f % 2 != 0) = true then f + 1 else f)
+      = Spec.roundEven X := by
+  unfold Spec.roundEven
+  simp only [rat_floor_eq, ← hf, decide_eq_true_eq]
+  by_cases h1 : X - (f : ℚ) < 1 / 2
+  · rw [if_pos (hA.mpr h1), if_pos h1]
+  · rw [if_neg (fun h => h1 (hA.mp h)), if_neg h1]
+    by_cases h2 : 1 / 2 < X - (f : ℚ)
+    · rw [if_pos (hB.mpr h2), if_pos h2]
+    · rw [if_neg (fun h => h2 (hB.mp h)), if_neg h2]
+      by_cases h3 : f % 2 = 0
+      · simp [h3]
+      · simp [h3]
+
+
 end Tetl.C12
